@@ -13,8 +13,13 @@ import (
 	"sync/atomic"
 
 	"github.com/graphql-go/graphql"
+	"github.com/graphql-go/graphql/gqlerrors"
 	"github.com/graphql-go/graphql/language/ast"
 )
+
+// sentinelError is one error object shared by every request of the process,
+// as applications do with package-level error values.
+var sentinelError = gqlerrors.NewError("shared sentinel error", nil, "", nil, nil, nil)
 
 // The simulated world (DESIGN.md §4): one schema whose every callback is an
 // instrumented closure. Values are derived only from (coordinate, response
@@ -68,6 +73,8 @@ const (
 	FSerPanic    = "ser_panic"          // custom scalar Serialize panics
 	FHostile     = "hostile"            // resolver mutates the Args map it was handed
 	FErrMsg      = "errmsg:"            // prefix: resolver returns (nil, errors.New(rest))
+	FForeignErr  = "foreign_err"        // resolver returns a FormattedError taken from another response (own path and locations)
+	FSentinelErr = "sentinel_err"       // resolver returns a process-wide *gqlerrors.Error value
 	FElemPanic   = "elem_panic"         // list of leaves: element 1 makes the leaf's Serialize panic
 	FElemThunk   = "elem_thunk"         // list: every element is a thunk yielding the normal element
 	FCancelCtx   = "cancel_ctx"         // resolver cancels the request context (then returns normally)
@@ -255,6 +262,10 @@ func normalizeForJSON(v interface{}) interface{} {
 		return fmt.Sprintf("%T:%v", x, x)
 	}
 }
+
+// QueryOnlyWorld makes NewWorld build a schema without mutation and
+// subscription roots (set and reset around NewWorld by the caller).
+var QueryOnlyWorld bool
 
 // NewWorld builds a fresh, cold schema.
 func NewWorld(id string, exts ...graphql.Extension) *World {
@@ -482,6 +493,12 @@ func NewWorld(id string, exts ...graphql.Extension) *World {
 		"l":  &graphql.ArgumentConfig{Type: graphql.NewList(graphql.Int)},
 		"id": &graphql.ArgumentConfig{Type: graphql.ID},
 	}
+	echo2Args := graphql.FieldConfigArgument{}
+	for k, a := range echoArgs {
+		echo2Args[k] = a
+	}
+	echo2Args["ks"] = &graphql.ArgumentConfig{Type: graphql.NewList(w.Kind)}
+	echo2Args["fd"] = &graphql.ArgumentConfig{Type: filter, DefaultValue: map[string]interface{}{"min": 3, "tags": []interface{}{"d"}, "st": "dflt"}}
 	rootFields := func() graphql.Fields {
 		return graphql.Fields{
 			"node":     &graphql.Field{Type: w.Node, Args: graphql.FieldConfigArgument{"as": &graphql.ArgumentConfig{Type: graphql.String}, "id": &graphql.ArgumentConfig{Type: graphql.ID}}},
@@ -496,14 +513,15 @@ func NewWorld(id string, exts ...graphql.Extension) *World {
 			"deep":     &graphql.Field{Type: deep},
 			"deepNN":   &graphql.Field{Type: graphql.NewNonNull(deep)},
 			"echo":     &graphql.Field{Type: graphql.String, Args: echoArgs},
-			"echo2":    &graphql.Field{Type: graphql.String, Args: echoArgs},
+			"echo2":    &graphql.Field{Type: graphql.String, Args: echo2Args},
 			"plainA":   &graphql.Field{Type: plain, Resolve: func(p graphql.ResolveParams) (interface{}, error) { return plainRecA(), nil }},
 			"plainB":   &graphql.Field{Type: plain, Resolve: func(p graphql.ResolveParams) (interface{}, error) { return plainRecB(), nil }},
 			"plainPtr": &graphql.Field{Type: plain, Resolve: func(p graphql.ResolveParams) (interface{}, error) { return plainRecPtr(), nil }},
 			"plainMap": &graphql.Field{Type: plain, Resolve: func(p graphql.ResolveParams) (interface{}, error) {
 				return map[string]interface{}{"name": "map-name", "n": 3, "tag": func() interface{} { return "map-tag-fn" }}, nil
 			}},
-			"plainFR": &graphql.Field{Type: plain, Resolve: func(p graphql.ResolveParams) (interface{}, error) { return plainFieldResolver{}, nil }},
+			"plainFR":    &graphql.Field{Type: plain, Resolve: func(p graphql.ResolveParams) (interface{}, error) { return plainFieldResolver{}, nil }},
+			"plainFRPtr": &graphql.Field{Type: plain, Resolve: func(p graphql.ResolveParams) (interface{}, error) { return &plainPtrResolver{tag: "ptr"}, nil }},
 			// no resolver at all: read from the request's root value by the default resolver
 			"plainRoot":   &graphql.Field{Type: plain},
 			"plainTagged": &graphql.Field{Type: plain, Resolve: func(p graphql.ResolveParams) (interface{}, error) { return plainRecTagged(), nil }},
@@ -559,11 +577,17 @@ func NewWorld(id string, exts ...graphql.Extension) *World {
 	})
 	w.Obj["Subscription"] = subscription
 
-	schema, err := graphql.NewSchema(graphql.SchemaConfig{
+	live := graphql.NewDirective(graphql.DirectiveConfig{Name: "live", Locations: []string{graphql.DirectiveLocationSubscription}})
+	cfg := graphql.SchemaConfig{
 		Query: query, Mutation: mutation, Subscription: subscription,
 		Types:      []graphql.Type{w.Obj["A"], w.Obj["B"], w.Obj["C"]},
+		Directives: append(append([]*graphql.Directive(nil), graphql.SpecifiedDirectives...), live),
 		Extensions: exts,
-	})
+	}
+	if QueryOnlyWorld {
+		cfg.Mutation, cfg.Subscription = nil, nil
+	}
+	schema, err := graphql.NewSchema(cfg)
 	if err != nil {
 		panic("world: " + err.Error())
 	}
@@ -663,6 +687,13 @@ func (w *World) resolverInner(coord string) graphql.FieldResolveFn {
 			return nil, errors.New(fault[len(FErrMsg):])
 		}
 		switch fault {
+		case FForeignErr:
+			inner := gqlerrors.NewError("inner failure of another request", nil, "", nil, nil, errors.New("inner cause"))
+			fe := gqlerrors.FormatError(inner)
+			fe.Path = []interface{}{"inner", "leaf"}
+			return nil, fe
+		case FSentinelErr:
+			return nil, sentinelError
 		case FErr:
 			return nil, fmt.Errorf("boom %s", path)
 		case FValErr:
@@ -1072,4 +1103,20 @@ func (plainFieldResolver) Resolve(p graphql.ResolveParams) (interface{}, error) 
 		return 9, nil
 	}
 	return "fr-tag", nil
+}
+
+// plainPtrResolver implements graphql.FieldResolver on its pointer type only.
+type plainPtrResolver struct{ tag string }
+
+func (r *plainPtrResolver) Resolve(p graphql.ResolveParams) (interface{}, error) {
+	switch p.Info.FieldName {
+	case "name":
+		return r.tag + "-name", nil
+	case "n":
+		return 11, nil
+	case "echoArg":
+		x, _ := p.Args["x"].(int)
+		return x, nil
+	}
+	return r.tag + "-tag", nil
 }
